@@ -149,8 +149,21 @@ _poll_and_add_to_jobs_(struct qb_loop_source *src, int32_t ms_timeout)
 	struct qb_poll_entry *pe = NULL;
 	struct qb_poll_source *s = (struct qb_poll_source *)src;
 	struct epoll_event events[MAX_EVENTS];
+	int32_t rounds;
 
 	qb_poll_fds_usage_check_(s);
+
+	/*
+	 * One call reports at most MAX_EVENTS descriptors. When more are
+	 * ready the kernel hands them out round robin over successive calls,
+	 * so go round (without waiting) until everything that is ready has
+	 * been seen once: a ready descriptor must not have to wait for
+	 * its turn behind however many others there are.
+	 */
+	rounds = (s->poll_entry_count / MAX_EVENTS) + 1;
+
+next_batch:
+	rounds--;
 
 retry_poll:
 
@@ -159,7 +172,7 @@ retry_poll:
 	if (errno == EINTR && event_count == -1) {
 		goto retry_poll;
 	} else if (event_count == -1) {
-		return -errno;
+		return (new_jobs > 0) ? new_jobs : -errno;
 	}
 
 	for (i = 0; i < event_count; i++) {
@@ -184,6 +197,10 @@ retry_poll:
 		if (pe->state != QB_POLL_ENTRY_JOBLIST) {
 			new_jobs += pe->add_to_jobs(src->l, pe);
 		}
+	}
+	if (event_count == MAX_EVENTS && rounds > 0) {
+		ms_timeout = 0;
+		goto next_batch;
 	}
 
 	return new_jobs;
